@@ -14,6 +14,7 @@ from sim import hints as H
 from sim import kernel, ops
 
 ID = 'C15'
+DIGEST_LAYOUT_SENSITIVE = True      # see DESIGN.md 11.3: sets of types inside beartype are ordered by object addresses
 BATCH = True      # many runs per forked child, state restored in place between runs (sim/state.py)
 RULE = ('seeded generation of 2-4 threads x 1-4 public-API operations (BeartypeConf, TypeHint, is_bearable, '
         'die_if_unbearable, @beartype + call, is_subhint, infer_hint, TypeHint wrapper use (children, comparisons, checks), claw registrations/queries, beartyping blocks) '
@@ -310,6 +311,10 @@ def _run_op(op, ctx):
                 src += '@beartype\ndef f%d(a: %r):\n    return a\n' % (j, op['text'])
             exec(compile(src, '<c15-fwd>', 'exec'), mod.__dict__)
             mod.Later = type('Later', (), {'__module__': 'c15_fwd_mod'})       # defined only after the decorations
+            if os.environ.get('VERIF_TRACE_RUN'):
+                with open('/tmp/c15_ids_%d.txt' % os.getpid(), 'a') as _f:
+                    _f.write('Later=%x mod=%x f0=%x NoneType=%x newobj=%x newlist=%x bigbytes=%x\n' % (
+                        id(mod.Later), id(mod), id(mod.f0), id(type(None)), id(object()), id([0] * 100), id(bytes(300000))))
             ctx['fwd'] = (mod, op['text'])
             out = ['ok', None]
         elif k == 'fwd_call':
@@ -500,6 +505,13 @@ def execute(case):
     import warnings
     from sim import boot, sched
     gc.disable()
+    if os.environ.get('VERIF_TRACE_RUN'):
+        # debugging aid: heap probe at the start of every execution (address of a fresh type object and a 2000-byte buffer)
+        _t = type('Probe', (), {})
+        _b = bytes(2000)
+        with open('/tmp/c15_heap_%d.txt' % os.getpid(), 'a') as _f:
+            _f.write('%s %s type=%x buf=%x\n' % (case.get('run'), 'serial' if case.get('serial') else 'conc', id(_t), id(_b)))
+        del _t, _b
     boot.SAMPLER.reset()
     boot.SAMPLER.sticky = case['draw']
     orig_cfs = ibe.cache_from_source
@@ -530,6 +542,17 @@ def execute(case):
         strategy = case['strategy']
     rng = kernel.stream(case['sched_seed'], 'sched')
     s = sched.Scheduler(strategy, rng, step_cap=case.get('step_cap', 300000))
+    _trace_run = os.environ.get('VERIF_TRACE_RUN')
+    if _trace_run and str(case.get('run')) == _trace_run and not case.get('serial') and case.get('serial_order') is None:
+        # debugging aid: dump the (task, file, line) event sequence of one run
+        _events = []
+        _orig_yp = s._yield_point
+
+        def _yp(frame, _o=_orig_yp, _e=_events):
+            _e.append('%s:%d %s' % (frame.f_code.co_filename.rsplit('/', 1)[-1].split(' at 0x')[0], frame.f_lineno, frame.f_code.co_name))
+            return _o(frame)
+        s._yield_point = _yp
+        case['_trace_events'] = _events
     order = case.get('serial_order')
     if order is not None:
         # one task executing the operations in the given global order
@@ -540,6 +563,9 @@ def execute(case):
         tasks = s.run([serial_body])
     else:
         tasks = s.run([mk(i, t) for i, t in enumerate(case['threads'])])
+    if case.get('_trace_events') is not None:
+        with open('/tmp/c15_events_%d.txt' % os.getpid(), 'w') as _f:
+            _f.write('\n'.join(case.pop('_trace_events')))
     problems = []
     poisoned = False
     if s.deadlock is not None:
